@@ -50,7 +50,8 @@ fn run_one(out: &mut Sink, runno: u64, b: &Value, seed: u64) {
         b["store"].as_array().unwrap().iter().map(|r| make_passkey(&mut s.dict, r, &mut run.rng)).collect()
     };
     run.seen_ids = creds.iter().map(|p| p.credential_id.to_vec()).collect();
-    let inner = new_store(cfg["storeKind"].as_str().unwrap(), cfg["disc"].as_str().unwrap(), cfg["emptyAsErr"].as_bool().unwrap(), creds, &sh);
+    let inner = new_store_full(cfg["storeKind"].as_str().unwrap(), "none", cfg["disc"].as_str().unwrap(), cfg["emptyAsErr"].as_bool().unwrap(),
+                               cfg["order"].as_str() == Some("newest"), creds, &sh);
     let snap0 = inner.snapshot(&sh.lock().unwrap().dict);
     let mtx = Arc::new(Mutex::new(inner));
     // the RwLock variant needs its own store instance (the inner store cannot be shared between two wrappers)
@@ -91,7 +92,7 @@ fn run_one(out: &mut Sink, runno: u64, b: &Value, seed: u64) {
         let mut s = sh.lock().unwrap();
         s.faults_by_cer = cers
             .iter()
-            .map(|c| c["env"]["faults"].as_array().map(|a| a.iter().map(|v| v.as_u64().unwrap_or(0) as u8).collect()).unwrap_or_default())
+            .map(|c| c["env"]["faults"].as_array().map(|a| a.iter().map(|v| v.as_u64().unwrap_or(0) as u16).collect()).unwrap_or_default())
             .collect();
         s.calls_by_cer = vec![0; cers.len()];
     }
